@@ -10,6 +10,9 @@ package control
 //   L2   forwardWithFallback over dae's real DoUDP/DoTCP against hostile
 //        loopback servers; L2b DoUDP.ForwardDNS on a reused pooled socket
 //   L3   the whole controller over the real transports
+//   L4   persistent DNS-over-TCP client connections through handleTCPDnsFastPath with the
+//        optimistic cache on: 2-6 different queries back to back over every cache state,
+//        the background refreshes run late (held until the connection is drained) or freely
 //
 // Oracles: per reply (ID, question, answer marker), cache content at
 // quiescence, no two overlapping upstream resolutions of one question,
@@ -30,6 +33,8 @@ func TestVerifC09(t *testing.T) {
 			"(answer / slow / ttl0 / wrong question / wrong type / previous payload with current ID / wrong ID / no question / TC / silent / error / "+
 			"servfail / nxdomain / empty; on the wire also duplicate, late and held duplicates on a reused socket, short and malformed datagrams, "+
 			"TCP reorder and close mid-stream) and 8-64 concurrent clients with transaction IDs from {7,8}; "+
+			"L4: per round 1-3 persistent client TCP connections through the transparent fast path, each with 2-6 different queries (one segment / one segment per query / strictly sequential) "+
+			"over names whose entries are missing, fresh, stale (background refresh, run late or freely), negative or uncacheable, then a fresh single query per question used; "+
 			"distinct = (layer, upstream scheme, client path, qtype, colliding-ID overlap, identical-question overlap, reply kind, set of upstream behaviours the question met); "+
 			"non-trivial = the client's question met at least one upstream call or was served from cache while other clients were in flight")
 	m.SetFloor(80)
@@ -39,6 +44,7 @@ func TestVerifC09(t *testing.T) {
 		"DnsController is built by NewDnsController + component/dns.New with asis / udp / tcp / tcp+udp request routing and the production forwarder factory (L2,L3) or scripted fakes (L1); NewCache callback mirrors control_plane.go without the domain bitmap",
 		"client ingress is emulated as in control/udp.go (Handle_, then dae's own SERVFAIL/TC helpers on error) and dns_listener.go/tcp.go (HandleWithResponseWriter_)",
 		"timeouts are shortened only through contexts passed in (L2/L2b) or by the fake upstream giving up early (L1); no dae constant is edited",
+		"L4: the ControlPlane value carries only what handleTCPDnsFastPath reads (log, DnsController); stale entries come from upstream answers with TTL 0 (expired at once, inside the 60 s stale window); the schedule 'refresh goroutine runs after the connection's later queries' is produced through the LifecycleContext the embedder passes to NewDnsController (its Deadline() parks callers whose stack is rooted in the refresh goroutine while the gate is closed) - no code of dae is changed; replies are matched to the queries of their connection by (ID, question), in order first",
 	)
 	if err := c09CheckMarkerInjective(); err != nil {
 		m.Inconclusive("marker not injective on the pool: %v", err)
@@ -59,6 +65,7 @@ func TestVerifC09(t *testing.T) {
 	nL2 := vk.Scale(50, 1000)
 	nL2b := vk.Scale(40, 800)
 	nL3 := vk.Scale(120, 2500)
+	nL4 := vk.Scale(150, 3000)
 	stop := func() bool { return m.Violations() >= 8 && os.Getenv("VERIF_C09_NOSTOP") == "" }
 	only := os.Getenv("VERIF_C09_LAYERS") // diagnosis only, e.g. "L3" or "L1,L1r"; a partial run ends INCONCLUSIVE
 	layer := func(name string, n int, f func(i int)) {
@@ -76,6 +83,7 @@ func TestVerifC09(t *testing.T) {
 	layer("L2", nL2, func(i int) { e.c09L2Round(r, i) })
 	layer("L2b", nL2b, func(i int) { e.c09L2bRound(r, i) })
 	layer("L3", nL3, func(i int) { e.c09L3Round(r, i) })
+	layer("L4", nL4, func(i int) { e.c09L4Round(r, i) })
 	if m.Violations() == 0 {
 		m.Require(
 			"msgs_judged", "answer_markers_checked", "cache_entries_checked", "cache_markers_checked",
@@ -85,6 +93,10 @@ func TestVerifC09(t *testing.T) {
 			"L2_forward_ok", "L2_fallback_tcp_answered", "L2_udp_stale_datagrams_with_colliding_id", "L2_tcp_closed_mid_stream",
 			"L2b_udp_stale_datagrams_with_colliding_id",
 			"L3_udp_stale_datagrams_delivered_on_reused_socket", "L3_rounds",
+			"L4_rounds", "L4_refresh_goroutines_seen", "L4_refresh_goroutines_held_until_connection_drained",
+			"L4_conns_stale_hit_refresh_held_while_other_questions_followed", "L4_conns_cache_hit_then_other_questions_refresh_free_running",
+			"L4_pipelined_conns_seg_one", "L4_pipelined_conns_seg_each", "L4_pipelined_conns_seg_wait",
+			"L4_queries_answered_from_cache", "L4_queries_resolved_upstream", "L4_probe_queries", "L4_primed_stale", "L4_primed_fresh", "L4_primed_negative",
 		)
 	}
 	m.Done(t)
